@@ -410,9 +410,42 @@ def r5_value_untouched(ctx):
            'of yielding ExtractJsonBodyError)' % len(bad))
 
 
+def r6_errors_not_discarded(ctx):
+    ctx.rule('C15.R6', 'P3 who-may-call (expected count 0; positive control: the same adaptors on std errors exist in the body-limit code): inside '
+             'pavex::request::{path,query,body} no call discards a Result that carries one of the extractors\' own errors — `.ok()`, '
+             '`.unwrap_or*()`, `.err()` on it, or an iterator adaptor that flattens it (`flat_map` / `flatten` / `filter_map` / `map_while` over '
+             'items of type Result<_, pavex::request::..Error>, which silently drops every `Err`). Malformed input must surface as the documented '
+             'error, not as a missing parameter.')
+    mods = (RQ + 'path::', RQ + 'query::', RQ + 'body::', '<' + RQ + 'path::', '<' + RQ + 'query::', '<' + RQ + 'body::')
+    n_ctrl, bad = 0, 0
+    for b in ctx.fb.bodies(CR):
+        if b.is_promoted or not b.nid.startswith(mods):
+            continue
+        for bb, t in b.calls():
+            c = callee(t) or ''
+            m = c.split('::')[-1]
+            own = lambda ty: 'core::result::Result<' in ty and RQ in ty.split('core::result::Result<', 1)[1] and 'rror' in ty
+            if c.startswith('core::result::Result::') and m in ('ok', 'err', 'unwrap_or', 'unwrap_or_default', 'unwrap_or_else'):
+                n_ctrl += 1
+                if t['aty'] and own(t['aty'][0]):
+                    bad += 1
+                    ctx.ob('C15.R6', 'error-discarded|%s|%s' % (b.nroot.replace(RQ, ''), m), False, b.loc(bb, t),
+                           'Result::%s on `%s`: the extraction error is thrown away' % (m, t['aty'][0][:120]))
+            elif c.startswith('core::iter::traits::iterator::Iterator::') and m in ('flat_map', 'flatten', 'filter_map', 'map_while', 'find_map'):
+                n_ctrl += 1
+                if any(own(g) for g in t.get('ga', [])) or (t['aty'] and m == 'flatten' and own(t['aty'][0])):
+                    bad += 1
+                    ctx.ob('C15.R6', 'error-discarded|%s|%s' % (b.nroot.replace(RQ, ''), m), False, b.loc(bb, t),
+                           'Iterator::%s over items of type %s: a Result iterates over its Ok value only, so every Err is silently dropped'
+                           % (m, [g[:110] for g in t.get('ga', []) if own(g)][:1]))
+    ctx.floor('C15.R6', 'Result / iterator adaptors of the discarding kind in the extractor modules (positive control)', n_ctrl, 2)
+    ctx.ob('C15.R6', 'no-extraction-error-discarded', bad == 0, '', '%d discarding call(s) on the extractors\' own errors (of %d adaptor calls looked at)' % (bad, n_ctrl))
+
+
 def check(ctx):
     r1_decode_once(ctx)
     r2_typed_parse(ctx)
     r3_content_type(ctx)
     r4_no_panic(ctx)
     r5_value_untouched(ctx)
+    r6_errors_not_discarded(ctx)
